@@ -59,6 +59,10 @@ CLOSE* replies (``Session.held`` / ``.held_info`` / ``.last_acked`` / ``.extend_
 ``.extend_refuse``).  A circuit whose reply is still withheld is never reported CLOSED/FAILED; an unannounced
 circuit takes part in no other op.
 
+Opt-in refused close (C08): ``Session.close_refuse = True`` makes tor answer the next CLOSE* command for a live
+object with 552 and marks the object ``dying`` (``World.close_command(line, refuse=True)``); ``c_close``/``s_close``
+/``close_step_for`` prefer dying objects like close-requested ones.
+
 Extra op for C09 (not in ``OPS``/``DEFAULT_WEIGHTS``): ``s_controller_wait`` (tor >= 0.4.5 with
 __LeaveStreamsUnattached=1 prints ``STREAM n CONTROLLER_WAIT 0 target`` for an unattached stream).
 To make tor attach stream ``s`` to circuit ``c`` (after an ATTACHSTREAM) use the ``s_sent`` op with the
@@ -197,6 +201,7 @@ class CircuitM(object):
         self.rend_query = None
         self.ever_attached = False
         self.close_requested = False
+        self.dying = False               # opt-in (refused close): tor has marked it for close, the gone event follows
         # opt-in (World.extend_command): a circuit launched by EXTENDCIRCUIT 0 is not "announced" until its
         # LAUNCHED event was emitted (op c_announce) and cannot die while the 250 EXTENDED reply is withheld
         self.announced = True
@@ -229,6 +234,7 @@ class StreamM(object):
         self.src = None
         self.purpose = "USER"
         self.close_requested = False
+        self.dying = False               # opt-in (refused close): tor has marked it for close, the gone event follows
         # client view
         self.status = None
         self.first_status = None         # status in which the client first saw it
@@ -518,7 +524,7 @@ class World(object):
     def _op_c_close(self, a, b, c):
         cand = self._circ_list(lambda x: not x.reply_pending)
         if b % 3 != 2:       # prefer one whose close was requested / that carries streams
-            pref = [x for x in cand if x.close_requested or
+            pref = [x for x in cand if x.close_requested or x.dying or
                     any(s.circ is x for s in self.streams.values())]
             cand = pref or cand
         circ = self._pick(cand, a)
@@ -677,7 +683,7 @@ class World(object):
     def _op_s_close(self, a, b, c):
         cand = self._stream_list(lambda x: True)
         if c % 2 == 0:
-            pref = [x for x in cand if x.doomed or x.close_requested]
+            pref = [x for x in cand if x.doomed or x.close_requested or x.dying]
             cand = pref or cand
         s = self._pick(cand, a)
         if s is None:
@@ -723,10 +729,11 @@ class World(object):
         """The step record that makes tor report live object ``m`` (CircuitM/StreamM) gone next."""
         if isinstance(m, CircuitM):
             cand = self._circ_list(lambda x: not x.reply_pending)
-            pref = [x for x in cand if x.close_requested or any(s.circ is x for s in self.streams.values())]
+            pref = [x for x in cand if x.close_requested or x.dying or
+                    any(s.circ is x for s in self.streams.values())]
             return ["c_close", (pref or cand).index(m), 0, 0] if m in (pref or cand) else None
         cand = self._stream_list(lambda x: True)
-        pref = [x for x in cand if x.doomed or x.close_requested]
+        pref = [x for x in cand if x.doomed or x.close_requested or x.dying]
         return ["s_close", (pref or cand).index(m), 0, 0] if m in (pref or cand) else None
 
     # ---------------------------------------------------------------- EXTENDCIRCUIT 0 (opt-in)
@@ -791,8 +798,12 @@ class World(object):
         return self._circ_report(circ, "LAUNCHED")
 
     # ---------------------------------------------------------------- commands
-    def close_command(self, line):
-        """Reference answer to CLOSECIRCUIT / CLOSESTREAM, decided when Tor reads the command."""
+    def close_command(self, line, refuse=False):
+        """Reference answer to CLOSECIRCUIT / CLOSESTREAM, decided when Tor reads the command.
+        ``refuse`` (opt-in): the object is live as far as the controller knows, but tor has just marked it for
+        close itself (the application hung up, the circuit was torn down): the command is answered
+        ``552 Unknown ...`` (tor's lookups skip objects marked for close) and the object is ``dying`` - its
+        CLOSED/FAILED event, which tor emits when it frees the object, is still to come."""
         words = line.split()
         try:
             n = int(words[1])
@@ -806,6 +817,9 @@ class World(object):
             obj = self.streams.get(n)
             if obj is None:
                 return wire.err(552, 'Unknown stream "%s"' % words[1])
+        if refuse:
+            obj.dying = True
+            return wire.err(552, 'Unknown %s "%s"' % ("circuit" if words[0] == "CLOSECIRCUIT" else "stream", words[1]))
         obj.close_requested = True
         return wire.ok()
 
@@ -847,6 +861,7 @@ class Session(object):
         self.answer_extend = answer_extend      # opt-in: answer EXTENDCIRCUIT 0 ... from the world
         self.extend_pick = 0            # id / default-path selector for the next EXTENDCIRCUIT
         self.extend_refuse = False      # tor answers the next EXTENDCIRCUIT with 551
+        self.close_refuse = False       # one-shot: tor answers the next CLOSE* for a live object with 552 (it is dying)
         self.extend_log = []            # [line, reply, CircuitM|None] per EXTENDCIRCUIT received
         self.extra_handler = extra_handler
         self.subscribed = set()
@@ -898,7 +913,8 @@ class Session(object):
             return wire.ok()
         if line.startswith("CLOSECIRCUIT ") or line.startswith("CLOSESTREAM "):
             self.close_lines.append(line)
-            reply = self.world.close_command(line)
+            reply = self.world.close_command(line, refuse=self.close_refuse)
+            self.close_refuse = False
             self.close_replies.append(reply)
             if self.hold_acks:
                 self.held.append(reply)
